@@ -396,7 +396,13 @@ impl Binder {
     /// Returns true if the expression `id` contains a subquery.
     fn contains_subquery(&self, id: Id) -> bool {
         let expr = self.node(id);
-        matches!(expr, Node::Max1Row(_) | Node::In(_) | Node::Exists(_))
+        let is_subquery = match expr {
+            Node::Max1Row(_) | Node::Exists(_) => true,
+            // `x IN (SELECT ..)`, but not `x IN (1, 2)`
+            Node::In([_, set]) => !matches!(self.node(*set), Node::List(_)),
+            _ => false,
+        };
+        is_subquery
             || expr
                 .children()
                 .iter()
